@@ -99,3 +99,14 @@ Proof.
     + eexists _, _. split; [reflexivity|]. apply Hm. lia.
     + eexists _, _. split; [reflexivity|]. apply Hm. lia.
 Qed.
+
+(* the tagged run used by the harness is the plain run when write compression is never switched off *)
+Lemma write_all_t_true : forall ops cfg keys sent,
+    write_all_t cfg keys sent (map (pair true) ops) = write_all cfg keys sent ops.
+Proof.
+  induction ops as [|o ops IH]; intros cfg keys sent; [reflexivity|].
+  cbn [map write_all_t write_all].
+  assert (E : mkWcfg (wc_server cfg) (wc_buf cfg) (wc_compress cfg && true) = cfg).
+  { destruct cfg as [s b z]. simpl. rewrite andb_true_r. reflexivity. }
+  rewrite E. destruct (write_op cfg keys sent o) as [[[wire keys'] sent'] e]. rewrite IH. reflexivity.
+Qed.
